@@ -129,7 +129,8 @@ def opInDomain (st : OSt) : Op → Bool
   | .moveCursor p => st.sized && decide (0 ≤ p.x) && decide (0 ≤ p.y) && decide (p.x.toNat < st.vt.w) && decide (p.y.toNat < st.vt.h)
   | .setTitle t => titleClean t
   | .setSize e => decide (1 ≤ e.width) && decide (1 ≤ e.height)
-  | .rawWrite _ => false
+  -- raw bytes are outside the properties' domain, except status queries (DSR 5/6, primary DA), which no terminal acts upon
+  | .rawWrite bs => [[0x1B, 0x5B, 0x36, 0x6E], [0x1B, 0x5B, 0x35, 0x6E], [0x1B, 0x5B, 0x63], [0x1B, 0x5B, 0x30, 0x63]].contains bs
   | _ => true
 
 /-- the rows / columns inspected by the grid checks: all of them, except on very large terminals (more than 40000
